@@ -363,7 +363,8 @@ func runDurRemove(c *Ctx, r *RuleRun) {
 		// (the site itself never justifies itself: a helper that removes and then publishes is a call that "must
 		// publish", but its removal comes first)
 		pubAvoid := d.tablePub.Avoid(f)
-		q := PathQuery{P: p, Fn: f, Avoid: func(ins ssa.Instruction) bool { return ins != s.ins && pubAvoid(ins) }, EdgeOK: d.tablePub.EdgeOK(f), Target: func(ins ssa.Instruction) bool { return ins == s.ins }}
+		selfOnly := d.tablePub.SelfOnly(f, s.ins)
+		q := PathQuery{P: p, Fn: f, Avoid: func(ins ssa.Instruction) bool { return !(ins == s.ins && selfOnly) && pubAvoid(ins) }, EdgeOK: d.tablePub.EdgeOK(f), Target: func(ins ssa.Instruction) bool { return ins == s.ins }}
 		w := q.FindPath()
 		localOnly := false
 		if df, isDefer := s.ins.(*ssa.Defer); isDefer {
